@@ -267,7 +267,10 @@ def gen_C04(rng, tier):
     for i in range(cnt):
         p = Prog('c04_m%d' % i)
         m, n, k = rng.randint(1, 3), rng.randint(1, 3), rng.randint(1, 3)
+        if i % 4 == 0:
+            m, n, k = min(dim_size(rng), 17), min(dim_size(rng), 33), min(dim_size(rng), 17)
         batch = rand_shape(rng, 4 if i % 10 == 0 else 3, 2 if i % 10 == 0 else 3, 0)
+        if m * n * k > 60: batch = batch[:1]
         ba = broadcast_sources(rng, batch)
         bb = broadcast_sources(rng, batch)
         sa, sb = ba + [m, n], bb + [n, k]
@@ -288,8 +291,9 @@ def gen_C04(rng, tier):
         progs.append(p)
     for i in range(cnt // 2):
         p = Prog('c04_d%d' % i)
-        n = rng.randint(1, 4)
+        n = rng.randint(1, 4) if i % 4 else min(dim_size(rng), 65)
         lead = rand_shape(rng, 4, 3, 0)
+        if n > 8: lead = lead[:2]
         la = broadcast_sources(rng, lead)
         lb = broadcast_sources(rng, lead)
         sa, sb = la + [n], lb + [n]
